@@ -202,6 +202,7 @@ def run_history(ctx, seed):
                             world.settle(advance=False)
                         if rng.random() < 0.7:
                             forced_shutdown[0] = rng.randrange(0, 3)
+                            info['forced_shutdown_step'] = forced_shutdown[0]
         for i in range(nsteps):
             step(i)
         # ---------------- drain
